@@ -37,7 +37,7 @@ CHECKS = {
          "Every sequence up to the length bound of source events, ticks and task runs (one deviation = both orders of a same-instant source event and timer) is executed for debounce, throttle(_time) x 3 edges, sample(interval), buffer_with_time, buffer_with_count_and_time; generic no-invention/no-duplication/order/buffer clauses under every run order and the exact timed model under the prompt executor.", "5/C09"),
  "C10": ([E2], "exhaustive preemption-bounded DFS over thread interleavings (CHESS-style iterative context bounding, own scheduler on the shuttle runtime) of real _threads code",
          "Two and three controlled threads run short scripts of next/complete/error/subscribe/unsubscribe against a shared SubjectThreads and against every _threads operator family; every schedule within the preemption bound is executed (scheduling points at every MutArc lock/unlock, controlled atomics, spawn/join, wake-ups); overlap detector, notification grammar, common order, and completion of every thread (deadlock and lost wake-up are reported by the runtime) are checked on each. The statement's `randomised beyond the bound` part is sampling and is not claimed.", "5/C10"),
- "C11": ([E1], "bounded-exhaustive enumeration of join/leave/emit/connect histories on the real share/publish operators with upstream counters",
+ "C11": ([E1, E2], "bounded-exhaustive enumeration of join/leave/emit/connect histories on the real share/publish operators with upstream counters; plus exhaustive preemption-bounded DFS over two threads joining share_threads concurrently",
          "Every history up to the length bound of subscribe/unsubscribe/source events/connect is executed for share, share_threads and publish; source-subscription and upstream-tap counters and every subscriber trace are checked after every step.", "5/C11"),
  "C12": ([E1, E2], "bounded-exhaustive enumeration of operation sequences on the real BehaviorSubject (both subject kinds) against a one-cell model; plus exhaustive preemption-bounded DFS over interleavings of producers and a late subscriber",
          "Every sequence up to the length bound of next/next_by/clone/subscribe/unsubscribe/complete/error is executed; every probe trace and peek() of every handle are compared with the model after every operation. (The two-producer race is served by engine E2 ; see coverage.engines in the evidence file.)", "5/C12"),
@@ -49,7 +49,7 @@ CHECKS = {
          "Every sequence up to the length bound of next/complete/error/unsubscribe (terminals through cloned handles) on four pipeline shapes in both forms; the finalizer counter must be 0 before the first trigger and exactly 1 from the return of the triggering call on. (The terminating-vs-unsubscribing thread race is served by engine E2 ; see coverage.engines in the evidence file.)", "5/C15"),
  "C16": ([E1], "bounded-exhaustive enumeration of producer x intermediate-stage x cutter pipelines (and producers in second-input position) on the real operators under a virtual clock, with pull/emission counters and an idle-pool check",
          "Every producer (interval, interval_at, from_iter, from_stream, timer, operator-owned tickers) under every stage sequence up to the depth bound and every early-terminating operator, as main and as second input of every two-input operator, in both forms: after the subscriber's terminal at most one more pull/emission happens and the pool is idle (no ready task, no live timer) within one period + 2 ticks.", "5/C16"),
- "C17": ([E1], "bounded-exhaustive enumeration of pipelines x action histories with is_closed() sampled after every action, plus operation sequences on composite subscriptions over controllable children",
+ "C17": ([E1, E2], "bounded-exhaustive enumeration of pipelines x action histories with is_closed() sampled after every action, plus operation sequences on composite subscriptions over controllable children; plus exhaustive preemption-bounded DFS over threads appending to / unsubscribing a MultiSubscriptionThreads",
          "The C01 pipeline set (every subscription type) is driven through every action history with unsubscribe at every position and is_closed() sampled after each action: never true then false, nothing delivered after true; every sequence of append/child-finishes/retain/clone/unsubscribe on MultiSubscription(+Threads) and ZipSubscription.", "5/C17"),
  "C18": ([E1], "bounded-exhaustive differential execution of every generated pipeline in its all-local and all-thread-safe instantiation over the same action histories",
          "The C01 pipeline set is built twice from the same AST (local types vs *_threads / *Threads types) and both instances are driven through every action history up to the length bound; traces must be identical after every action.", "5/C18"),
